@@ -117,6 +117,8 @@ func pricingText(name string) string {
 	case "p4tms": // a window whose ends carry fractions of a second: [T0+1.5s, T0+3.9s)
 		return fmt.Sprintf(`{"price":"4stake","promotions_by_time":[{"start_time":"%s","end_time":"%s","discount":"0.5"}]}`,
 			T0.Add(1500*time.Millisecond).Format("2006-01-02T15:04:05.000Z"), T0.Add(3900*time.Millisecond).Format("2006-01-02T15:04:05.000Z"))
+	case "p4vd": // volume promotions listed in descending order of volume (refused by the unmodified module)
+		return `{"price":"4stake","promotions_by_volume":[{"volume":2,"discount":"0.5"},{"volume":1,"discount":"0.75"}]}`
 	case "p5":
 		return `{"price":"5stake"}`
 	case "p20":
@@ -155,20 +157,22 @@ func pricingText(name string) string {
 // Template is a call template. The context ID is a pure function of the template (tx hash = f(index)), so
 // two paths creating the same contexts in different orders merge.
 type Template struct {
-	Name      string
-	Consumer  string
-	Service   string
-	Providers []string
-	Cap       int64
-	CapBig    string // decimal fee cap beyond int64 (used instead of Cap when set)
-	Timeout   int64
-	Super     bool
-	Repeated  bool
-	Freq      uint64
-	Total     int64
-	Module    string // non-empty: created through the keeper API by "another module"
-	SameTxAs  string // created while handling the same message as the named template (same tx hash and message index)
-	Threshold uint32
+	Name        string
+	Consumer    string
+	Service     string
+	Providers   []string
+	Cap         int64
+	CapBig      string // decimal fee cap beyond int64 (used instead of Cap when set)
+	Timeout     int64
+	Super       bool
+	Repeated    bool
+	Freq        uint64
+	Total       int64
+	Module      string // non-empty: created through the keeper API by "another module"
+	Input       string // request input ("" = a plain valid one)
+	StartPaused bool   // module templates: the context is created in state PAUSED
+	SameTxAs    string // created while handling the same message as the named template (same tx hash and message index)
+	Threshold   uint32
 }
 
 func (sc *Scenario) TxHash(ti int) []byte {
@@ -229,6 +233,12 @@ type Action struct {
 
 func (a Action) IsE() bool { return a.Kind == "E" }
 
+// actDefineSplitTags: two neighbouring tags that split one multi-byte character between them (each is invalid UTF-8, their concatenation is valid).
+func actDefineSplitTags(name, author string) Action {
+	return Action{Name: fmt.Sprintf("define(%s,%s,tags splitting a character)", name, author), Kind: "define", Svc: name, Signer: A(author), Tmpl: -1,
+		Msg: st.NewMsgDefineService(name, "d", []string{"caf\xc3", "\xa9-bar"}, A(author), "a", schemasOK)}
+}
+
 func actE() Action { return Action{Name: "E", Kind: "E", Tmpl: -1} }
 
 // actEJump: an end of block after which the next block's time lies `sec` seconds later instead of one (block times
@@ -267,6 +277,13 @@ func bigCoins(dec string) sdk.Coins {
 		panic("bad amount " + dec)
 	}
 	return sdk.NewCoins(sdk.NewCoin(denom, n))
+}
+
+func (t Template) input() string {
+	if t.Input != "" {
+		return t.Input
+	}
+	return inputOK
 }
 
 func (t Template) capCoins() sdk.Coins {
@@ -382,13 +399,17 @@ func (sc *Scenario) actCall(ti int) Action {
 	a := Action{Name: fmt.Sprintf("call(%s)", t.Name), Kind: "call", Tmpl: ti, Signer: A(t.Consumer), Svc: t.Service,
 		TxHash: sc.TxHash(ti), Ctx: hexs(sc.CtxID(ti))}
 	if t.Module == "" {
-		a.Msg = st.NewMsgCallService(t.Service, addrs(t.Providers), A(t.Consumer), inputOK, t.capCoins(), t.Timeout, t.Super, t.Repeated, t.Freq, t.Total)
+		a.Msg = st.NewMsgCallService(t.Service, addrs(t.Providers), A(t.Consumer), t.input(), t.capCoins(), t.Timeout, t.Super, t.Repeated, t.Freq, t.Total)
 	} else {
 		a.Kind = "mcreate"
 		a.Name = fmt.Sprintf("mcreate(%s)", t.Name)
 		a.Mod = func(ctx sdk.Context, k servicekeeper.Keeper) error {
-			_, err := k.CreateRequestContext(ctx, t.Service, addrs(t.Providers), A(t.Consumer), inputOK, t.capCoins(), t.Timeout,
-				t.Super, t.Repeated, t.Freq, t.Total, st.RUNNING, t.Threshold, t.Module)
+			state := st.RUNNING
+			if t.StartPaused {
+				state = st.PAUSED
+			}
+			_, err := k.CreateRequestContext(ctx, t.Service, addrs(t.Providers), A(t.Consumer), t.input(), t.capCoins(), t.Timeout,
+				t.Super, t.Repeated, t.Freq, t.Total, state, t.Threshold, t.Module)
 			return err
 		}
 	}
@@ -460,11 +481,19 @@ type CtxUpdate struct {
 	Freq      uint64
 	Total     int64
 	Threshold uint32
+	CapZero   bool // the fee cap is given as the single coin 0stake
+}
+
+func (u CtxUpdate) capCoins() sdk.Coins {
+	if u.CapZero {
+		return sdk.Coins{sdk.NewInt64Coin(denom, 0)}
+	}
+	return coins(u.Cap)
 }
 
 func (sc *Scenario) actUpdCtx(ctxHex string, signer sdk.AccAddress, u CtxUpdate) Action {
 	return Action{Name: fmt.Sprintf("updctx(%s,%s,%s)", sc.ctxName(ctxHex), nameOf(signer), u.Name), Kind: "updctx", Ctx: ctxHex, Signer: signer, Upd: u.Name, Tmpl: -1,
-		Msg: st.NewMsgUpdateRequestContext(mustHex(ctxHex), addrs(u.Providers), coins(u.Cap), u.Timeout, u.Freq, u.Total, signer)}
+		Msg: st.NewMsgUpdateRequestContext(mustHex(ctxHex), addrs(u.Providers), u.capCoins(), u.Timeout, u.Freq, u.Total, signer)}
 }
 
 // keeper-API calls played by "another module" on its own contexts
